@@ -556,6 +556,13 @@ func c06Batch(tag string, cases []*c06Case, st *mc.Stats, mu *sync.Mutex) []mc.V
 	}
 	mb.WriteString("}\n")
 	r := st3.Run("c06"+tag, pkgs, mb.String(), false, nil)
+	if r.Stopped != "" {
+		mu.Lock()
+		st.Inconcl++
+		st.Cap("a compiled program of a batch was stopped by the safety net (" + r.Stopped + "); the batch is not evaluated")
+		mu.Unlock()
+		return out
+	}
 	if r.BuildErr != "" {
 		for _, j := range jobs {
 			if strings.Contains(r.BuildErr, j.pkg+"/") || strings.Contains(r.BuildErr, "/"+j.pkg+"\n") {
